@@ -184,8 +184,22 @@ func (in *interp) intrinsic(fr *frame, name string, fn *ssa.Function, args []val
 	case "verifWriteCount":
 		return len(in.writes)
 	case "verifPermuteMaps":
-		in.permuteMaps = args[0].(bool)
+		// 0 = insertion order; 1 = every map reversed; 2 = every map rotated by one;
+		// 3 = a separate fork at every range statement (all n! orders for n<=3)
+		in.permuteMode = int(asInt64(args[0]))
+		in.permuteMaps = in.permuteMode == 3
 		return nil
+	case "verifRuns":
+		return 1
+	case "verifDeepEqual":
+		a, b := args[0].(iface), args[1].(iface)
+		if !sameType(a.t, b.t) {
+			return false
+		}
+		if a.t == nil {
+			return true
+		}
+		return boolVal(in.deepEqTerm(a.v, b.v, a.t, 0))
 	case "verifReach":
 		p.reach(str(0))
 		return nil
